@@ -1,20 +1,22 @@
 import json,sys
 sys.path.insert(0,'/verif/checklib')
-import manifest_data as md
+import props as md
+NOTES=('Machine-checked proof in Coq 8.16.1 over code-shaped models; models tied to /repo by (a) regenerated constants (coq/Generated) and (b) extracted model vs implementation differential on every run. See DESIGN.md.')
 props=[json.loads(l) for l in open('/verif/properties.jsonl')]
 checks=[]
+NOT_YET={}
 for p in props:
     pid=p['id']
-    if pid not in md.CLAIMED: continue
-    c=md.CLAIMED[pid]
+    if pid not in md.MANIFESTS: continue
+    c=md.MANIFESTS[pid]
     checks.append(dict(property_id=pid, quick_cmd='./check %s quick'%pid, thorough_cmd='./check %s thorough'%pid,
       evidence_file='/verif/evidence/%s.json'%pid, replay_cmd_template='./check %s --replay {path}'%pid, engine='coq-refinement',
       level_claimed=dict(category='proof', text=c['text'], design_ref=c['ref']), level_note=c['note'], technique=c['technique']))
-na=[dict(property_id=p['id'], reason=md.NOT_YET.get(p['id'],'check not built yet in this session; planned per DESIGN.md section 5')) for p in props if p['id'] not in md.CLAIMED]
+na=[dict(property_id=p['id'], reason=NOT_YET.get(p['id'],'check not built yet in this session; planned per DESIGN.md section 5')) for p in props if p['id'] not in md.MANIFESTS]
 m=dict(version=1, setup_cmd='bash ./setup.sh',
   hooks=dict(guard='verif', enable='no source hooks: accessors to unexported state are added at build time with `go build -overlay` from /verif/harness/overlay (nothing is written into /repo)',
              baseline_off_cmd='bash /verif/baseline.sh', source_commits=[], add_only=True),
-  engines=[dict(name='coq-refinement', path='/verif/coq', serves_properties=sorted(md.CLAIMED), kind_free_text='Coq 8.16.1 theorems about hand-written code-shaped Gallina models + extracted-model-vs-implementation correspondence + independent Go oracles')],
-  checks=checks, notes=md.NOTES, not_applicable=na)
+  engines=[dict(name='coq-refinement', path='/verif/coq', serves_properties=sorted(md.MANIFESTS), kind_free_text='Coq 8.16.1 theorems about hand-written code-shaped Gallina models + extracted-model-vs-implementation correspondence + independent Go oracles')],
+  checks=checks, notes=NOTES, not_applicable=na)
 json.dump(m,open('/verif/MANIFEST.json','w'),indent=1)
 print(len(checks),'claimed',len(na),'not yet')
